@@ -854,6 +854,63 @@ func freeRunning(h *verifx.H) {
 	})
 }
 
+
+// ---------------------------------------------------------------------------------------------- probes
+// mode "probe": two fixed experiments on the real code, reported as observations only (no oracle):
+// case 0: which string-top filters share a cache key (getOrBuildCacheKey);
+// case 1: a failed reload of a chunk that was loaded before its interval was over.
+func probe(h *verifx.H) {
+	h.Cases(func(i int, r *verifx.Rng) {
+		switch i {
+		case 0:
+			sets := [][]string{{"a", "b"}, {"c", "b"}, {"b"}, {"a\",\"b"}}
+			for _, v := range sets {
+				h.Obs("key %q -> %s", v, api.VerifC23CacheKey(v))
+			}
+			h.Obs("same-key {a,b}/{c,b}: %v", api.VerifC23CacheKey(sets[0]) == api.VerifC23CacheKey(sets[1]))
+			h.Obs("same-key {a,b}/{a\",\"b}: %v", api.VerifC23CacheKey(sets[0]) == api.VerifC23CacheKey(sets[3]))
+		case 1:
+			s := &script{h: h, r: r}
+			synctest.Run(func() {
+				s.step = 1
+				s.calls = map[int64]*call{}
+				s.results = make(chan result, 64)
+				s.reqs = map[int64]*request{}
+				s.finSeq = map[int64]int{}
+				s.seq, s.version, s.nextID, s.nkeys = 0, 1, 0, 1
+				s.v = api.VerifC23New(2, s.stub)
+				sh := s.v.Shard(s.step)
+				s.k, s.dur = sh.ChunkSize, int64(sh.ChunkDuration/time.Second)
+				col, row := api.VerifC23SizeConsts()
+				s.t0 = time.Now().Unix()
+				h.Op("cfg %d %d %d %d %d", s.step, s.k, int64(sh.ChunkDuration), col, row)
+				time.Sleep(time.Millisecond)
+				s.seq++
+				s.opReq(1, 0, false, s.t0, s.t0+2) // the chunk [t0, t0+2) is not over yet: loadStartedAt < end
+				s.seq++
+				s.opFin(1, true)
+				time.Sleep(20 * time.Second) // well past end + invalidateLinger
+				s.version++                   // the storage now holds the complete interval
+				s.seq++
+				s.opReq(1, 0, false, s.t0, s.t0+2) // must reload: the cached data was loaded before the interval was over
+				s.seq++
+				s.opFin(2, false) // the reload fails
+				time.Sleep(time.Millisecond)
+				s.seq++
+				s.opReq(1, 0, false, s.t0, s.t0+2) // what now?
+				for _, id := range s.pendingCalls() {
+					s.seq++
+					s.opFin(id, true)
+				}
+				s.seq++
+				h.Op("shutdown %d", s.now())
+				s.v.Shutdown()
+				s.settle("shutdown")
+			})
+		}
+	})
+}
+
 func main() {
 	statshouse.Configure(func(string, ...interface{}) {}, "", "") // the cache reports its own metrics; discard them
 	h := verifx.New()
@@ -862,6 +919,8 @@ func main() {
 		scripted(h)
 	case "free":
 		freeRunning(h)
+	case "probe":
+		probe(h)
 	default:
 		fmt.Println("unknown mode", h.Mode)
 	}
